@@ -994,7 +994,7 @@ class Pool:
         from concurrent.futures import ThreadPoolExecutor
 
         def one(ch):
-            if deadline is not None and time.time() > deadline:
+            if deadline is not None and not ch.get("must") and time.time() > deadline:
                 return {"error": "deadline", "deadline": True}
             res = run_interpreter(ch)
             with self.lock:
@@ -1826,6 +1826,12 @@ def plan_cross(ctx, transcription, w):
 
 
 def cross_part(ctx, chk, job, transcription, base, rng, corrupt=False):
+    """plan + runs + comparison in one go (selftest)"""
+    state = cross_chains(ctx, job, rng)
+    return cross_judge(ctx, chk, state, chk.run_chains(state["chains"]), transcription, corrupt)
+
+
+def cross_chains(ctx, job, rng):
     """Every behaviour TLC enumerated for the cross family (script, placement of a digit boundary
     inside the objects of every counted class) is replayed on the real code: all of them with
     explicit numbering (one interpreter runs hundreds), a seeded sample with real histories (a fresh
@@ -1868,14 +1874,14 @@ def cross_part(ctx, chk, job, transcription, base, rng, corrupt=False):
             raise MachineryError(f"emitted script {show_prog(progs[k])} does not build in the real ufl")
     seeds = hash_seeds(ctx)
     # (1) explicit numbering: every behaviour of the chosen scripts
-    n_sim = 3 if quick else 6
+    n_sim = 1 if quick else 6
     sim = [[] for _ in range(n_sim)]
     for n, k in enumerate(sorted(chosen, key=lambda k: -len(by_script[k]["offs"]))):
         for off in sorted(by_script[k]["offs"]):
             sim[n % n_sim].append({"program": progs[k], "source": "tlc-placed", "targets": dict(zip(KINDS5, off)), "sim": True})
-    chains = [{"seed": seeds[n % len(seeds)], "steps": st} for n, st in enumerate(sim) if st]
+    chains = [{"seed": seeds[n % len(seeds)], "steps": st, "must": True} for n, st in enumerate(sim) if st]
     # (2) real histories: behaviours that place several counters, packed greedily into interpreters
-    n_real = 6 if quick else 60
+    n_real = 4 if quick else 60
     cands = [(k, off) for k in chosen for off in sorted(by_script[k]["offs"]) if sum(1 for x in off if x) >= 2]
     rng.shuffle(cands)
     cands.sort(key=lambda c: max(c[1]))  # stable: lower digit boundaries first, so that an interpreter meets one per boundary
@@ -1889,12 +1895,15 @@ def cross_part(ctx, chk, job, transcription, base, rng, corrupt=False):
                 for K in used:
                     ch["floor"][K] = o[K] + made[k][K]
                 break
-    chains += [{"seed": seeds[(n + 1) % len(seeds)], "steps": ch["steps"]} for n, ch in enumerate(real) if ch["steps"]]
-    t1 = time.time()
-    cases = chk.run_chains(chains)
+    chains += [{"seed": seeds[(n + 1) % len(seeds)], "steps": ch["steps"], "must": True} for n, ch in enumerate(real) if ch["steps"]]
+    return {"chains": chains, "by_script": by_script, "made": made}
+
+
+def cross_judge(ctx, chk, state, cases, transcription, corrupt=False):
+    by_script, made = state["by_script"], state["made"]
     n_runs = sum(len(c.runs) for c in cases.values())
     n_hist = sum(1 for c in cases.values() for r in c.runs if not r.res.get("sim"))
-    print(f"  cross family: {len(cases)} of {len(by_script)} TLC-enumerated scripts, {n_runs} placements replayed ({n_hist} with real histories) in {time.time() - t1:.1f}s", flush=True)
+    print(f"  cross family: {len(cases)} of {len(by_script)} TLC-enumerated scripts, {n_runs} placements replayed ({n_hist} with real histories)", flush=True)
     if not n_hist:
         raise MachineryError("cross family: no placement was replayed with a real history")
     unexplained = differs = 0
@@ -2035,7 +2044,7 @@ def conformance(ctx, chk, emit_jobs, transcription, base, rng, budget, deadline=
     return conformance_compare(ctx, state, msigs, transcription, corrupt)
 
 
-def conformance_runs(ctx, chk, emit_jobs, transcription, base, rng, budget, deadline=None):
+def conformance_runs(ctx, chk, emit_jobs, transcription, base, rng, budget, deadline=None, extra=()):
     """Scripts enumerated by TLC are run on the real code under many histories; TLC then computes the
     model signature for exactly the observed counter shifts; per script, the partition of the runs by
     real signature must be the partition by model signature."""
@@ -2056,7 +2065,10 @@ def conformance_runs(ctx, chk, emit_jobs, transcription, base, rng, budget, dead
         grp = progs[k : k + G]
         chains.append({"seed": seeds[len(chains) % len(seeds)], "steps": interleave([chain_standard(p, "tlc-emitted")[:1] + chain_positions(p, "tlc-emitted", measure(p), base, j=n, only=n) + chain_phased(p, "tlc-emitted", rng, base) for n, p in enumerate(grp)])})
     t1 = time.time()
-    cases = chk.run_chains(chains[:1])  # the first group (scripts with model-predicted differences) always runs
+    # the first group (scripts with model-predicted differences) always runs; `extra`: chains of
+    # another part that share this round of interpreters (their cases are returned as "others")
+    cases = chk.run_chains(chains[:1] + list(extra))
+    others = {k: cases.pop(k) for k in [k for k, c in cases.items() if c.source != "tlc-emitted"]}
     for k, c in chk.run_chains(chains[1:], deadline).items():
         cases[k] = c
     t2 = time.time()
@@ -2076,7 +2088,7 @@ def conformance_runs(ctx, chk, emit_jobs, transcription, base, rng, budget, dead
     if not observed:
         raise MachineryError("conformance: no emitted script was run")
     print(f"  conformance: {len(cases)} TLC-enumerated scripts, {sum(len(c.runs) for c in cases.values())} runs in {t2 - t1:.1f}s", flush=True)
-    return {"observed": observed, "index": index, "cases": cases}
+    return {"observed": observed, "index": index, "cases": cases, "others": others}
 
 
 def conformance_compare(ctx, state, msigs, transcription, corrupt=False):
@@ -2284,16 +2296,18 @@ def run(ctx, args):
         order = [cross_emit] + emit + coded + intended
         futs = {id(j): ex.submit(j.run, base) for j in order}
         # (c) the property on the corpus, while TLC runs
+        # (d) terminals that embed several counters, placement histories of all counters at once:
+        # the interpreters share the pool with those of the corpus
         corpus_part(ctx, chk, base, rng, t0 + (22 if quick else 360))
         print(f"  [{time.time() - t0:.0f}s] corpus judged", flush=True)
-        # (d) terminals that embed several counters, placement histories of all counters at once
-        futs[id(cross_emit)].result()
-        cross_part(ctx, chk, cross_emit, transcription, base, random.Random(7368787 * ctx.seed + (3 if quick else 4)))
-        print(f"  [{time.time() - t0:.0f}s] cross family replayed", flush=True)
-        # (b) conformance of the transcription that matches the code under test
-        for j in emit:
+        # (b) conformance of the transcription that matches the code under test; (d) the placements of
+        # the cross family (terminals that embed several counters, all counters placed at once) run
+        # in the same round of interpreters as the first group of (b)
+        for j in [cross_emit] + emit:
             futs[id(j)].result()
-        state = conformance_runs(ctx, chk, emit, transcription, base, rng, 40 if quick else 900, t0 + (32 if quick else 480))
+        cross = cross_chains(ctx, cross_emit, random.Random(7368787 * ctx.seed + (3 if quick else 4)))
+        state = conformance_runs(ctx, chk, emit, transcription, base, rng, 40 if quick else 900, t0 + (32 if quick else 480), extra=cross["chains"])
+        cross_judge(ctx, chk, cross, state["others"], transcription)
         msig_future = ex.submit(model_signatures, ctx, base, transcription, state["observed"])  # TLC validates the recorded runs
         print(f"  [{time.time() - t0:.0f}s] conformance runs done", flush=True)
         # (a) counterexamples of the machine as coded, replayed; the intended machine holds
